@@ -264,6 +264,11 @@ func (s *Set) registerFlags(tmpl reflect.Value, ptyp reflect.Type) error {
 		// get the concrete value of the field from the template
 		fieldVal := transform.GetField(sf, tmpl)
 		shorthand, _ := sf.Tag.Lookup(common.DialsPFlagShortTag)
+		if len(shorthand) > 1 {
+			// pflag panics in FlagSet.AddFlag for such a shorthand
+			return fmt.Errorf("cannot register a flag for field %q: %s tag %q is more than one ASCII character",
+				sf.Name, common.DialsPFlagShortTag, shorthand)
+		}
 		var f interface{}
 
 		switch {
